@@ -372,6 +372,7 @@ class ContentOracle:
         st = stack_json(real, snap)
         cur = {k: v["oid"] for k, v in st["patches"].items()} if st else {}
         prev, self.prev = self.prev, cur
+        head_before, self.head_tree = getattr(self, "head_tree", None), real.commit_info(snap["branch"])["tree"]
         if prev is None or st is None or c["c"] not in self.REORDER or ex not in (0, 3):
             return None
         for n, oid in cur.items():
@@ -393,6 +394,12 @@ class ContentOracle:
                 continue
             if "set-tree" in c.get("flags", []):
                 continue
+            if ni["tree"] != exp and "merged" in c.get("flags", []) and ni["tree"] == np_["tree"] and head_before \
+                    and all(head_before[k] == oi["tree"][k] for k in range(len(exp)) if op["tree"][k] != oi["tree"][k]):
+                # the patch was emptied because its reverse applies to the head tree as it was BEFORE the
+                # command: that is --merged's definition of "merged upstream" (known finding F37)
+                return ("merged-heuristic: --merged emptied patch %r (its reverse applies to the tree checked out "
+                        "before the push) although the patches pushed beneath it re-introduce what it undoes" % n)
             if ni["tree"] != exp:
                 return "pushed patch %r does not carry the three-way merge of (old parent, new parent, patch): %r != %r" % (
                     n, ni["tree"], exp)
@@ -494,9 +501,11 @@ def oracle_conflict_guard(state):
         was_unmerged = state.get("unmerged", False)
         if was_unmerged and c["c"] in ("push", "pop", "goto", "float", "sink", "delete", "new", "refresh", "spill") \
                 and not (c["c"] in ("push", "pop") and c.get("n") == 0):
-            if ex == 0:
+            if ex == 0 and state.get("refs") != (snap["branch"], snap["stack"]):
+                # (a selection that turns out empty, e.g. `pop -n -1` with one applied patch, is
+                # a successful no-op before any check: nothing was done, nothing recorded)
                 fail = "command succeeded although unresolved conflicts exist"
-            elif state.get("refs") != (snap["branch"], snap["stack"]):
+            elif ex != 0 and state.get("refs") != (snap["branch"], snap["stack"]):
                 fail = "command refused because of conflicts but changed refs"
         if was_unmerged and c["c"] == "undo" and "hard" not in c.get("flags", []):
             if ex == 0:
